@@ -7,10 +7,11 @@
  *   myth_create_join_many_ex_body      against the contract proved for various_ex_body (many = various, func stride 0)
  *
  * The UNIVERSE of one check (assigned once by the harness, in no assigns clause, hence invariant):
- *   five user arrays, each its own object of ASZ bytes: ARGS (only addresses are taken), FUNCS (read), ATTRS (only
- *   addresses), RES (written), IDS (written);  g_res / g_ids / g_attrs = base pointer or NULL;  strides g_as, g_fs,
- *   g_ts, g_rs, g_is: args/attrs any, funcs 0 or >= 8, results/ids >= 8 when given (slots do not overlap), every
- *   item of [0, g_hb) inside its array.
+ *   five user arrays, each its own dynamic object of SYMBOLIC size (up to 2^50 bytes): ARGS (only addresses are taken),
+ *   FUNCS (read), ATTRS (only addresses), RES (written), IDS (written);  g_res / g_ids / g_attrs = base pointer or NULL;  strides g_as, g_fs,
+ *   g_ts, g_rs, g_is: args/attrs any, funcs 0 or a multiple of 8, results/ids a non-zero multiple of 8 when given
+ *   (aligned, non-overlapping 8-byte slots), every item of [0, g_hb) inside its array; strides and n below 2^31 as
+ *   soon as one array is really strided (i*stride does not overflow), n <= LONG_MAX/2 otherwise.
  *   The function table DEFINES f_i: f_{g_w} = F_watch and f_i = F_other for i != g_w (func stride >= 8); the one
  *   shared f = F_watch (func stride 0).  This is a universally quantified fact about user memory that nobody writes;
  *   h_aux assumes its instance at the only slot the call under proof can read itself (slot g_ha, read when the range
@@ -24,9 +25,9 @@
  *              F_watch got another address although only item g_w has it (func stride >= 8)             -> stays 0
  *     g_wid    myth_self() at the instant of the call F_watch(g_warg): the thread that ran item g_w
  *   results: slot g_w == g_ret (what F_watch(g_warg) returned) iff in range, else unchanged;  ids: slot g_w == g_wid.
- *   Frame: guard bytes RES[g_gro] / IDS[g_gio] with g_gro = g_gri*g_rs + g_grd (0 <= g_grd < g_rs) an ARBITRARY byte of
- *   the array: unchanged unless it lies in the slot of an item of [a, b) (a <= g_gri < b and g_grd < 8); every byte
- *   when the array is not given.  ARGS, FUNCS, ATTRS are in no assigns clause.
+ *   Frame: guard cells RES[g_grc] / IDS[g_gic], cell g_grc = byte offset g_gri*g_rs + g_grd (0 <= g_grd < g_rs), an
+ *   ARBITRARY 8-byte cell of the array: unchanged unless it is the slot of an item of [a, b) (a <= g_gri < b and
+ *   g_grd == 0); every cell when the array is not given.  ARGS, FUNCS, ATTRS are in no assigns clause.
  * Threads: myth_create_ex_body / myth_join_body are replaced by contracts (ASSUMED: C01 + induction hypothesis):
  *   create requires func == aux, an argument block satisfying aux's precondition for a STRICTLY SMALLER range, the
  *   attribute slot of the first item of that range (or NULL); it records the child (g_ca, g_cb, token), g_pending + 1.
@@ -44,11 +45,13 @@
 #include <limits.h>
 #include <stdlib.h>
 
-#ifndef ASZ
-#define ASZ (1L << 30)                 /* size in bytes of each user array (the harness memory; see units/c17.py) */
-#endif
-#define SMALL(x) (((unsigned long)(x) & ~(unsigned long)(2 * ASZ - 1)) == 0)   /* bit-level form of 0 <= x < 2*ASZ: products of two such values do not overflow */
+/* bounds of a STRIDED universe (some array really indexed): item numbers below 2^31, strides below 2^18 bytes; then
+   i*stride < 2^49 never overflows and every array fits an object of the model (cbmc --object-bits 12: 2^51 bytes).
+   Written on the bits so that the SAT solver sees them by unit propagation. */
+#define SMALLN(x) (((unsigned long)(x) >> 31) == 0)
+#define SMALLS(x) (((unsigned long)(x) >> 18) == 0)
 #define PROD(i, s) ((long)((unsigned long)(i) * (unsigned long)(s)))            /* i*s exactly as the library computes it (long * size_t) */
+#define SLACK (1L << 49)                                                         /* an array may be up to 2^49 bytes longer than its last slot */
 
 /* ------------------------------------------------------------------ ghosts */
 long   g_w;                            /* witness item */
@@ -57,19 +60,14 @@ int    g_in_body;                      /* 1 from the first statement of aux's bo
 size_t g_is, g_ts, g_fs, g_as, g_rs;   /* strides: ids, attrs, funcs, args, results */
 void * g_ids, * g_attrs, * g_res;      /* base pointers or NULL */
 long   g_count, g_c0; int g_calls, g_bad;
-long   g_wro, g_wio;                   /* byte offset of item g_w's result / id slot (0 when there is none) */
+long   g_wrc, g_wic;                   /* cell index of item g_w's result / id slot (0 when there is none) */
 void * g_warg, * g_ret, * g_ret_o;
 void * g_wid;                          /* thread that ran item g_w */
 void * g_self;                         /* what myth_self() returns in the thread under proof */
 long   g_p0, g_pending;                /* outstanding children: level of the call under proof / now */
 long   g_ca, g_cb;                     /* range of the outstanding child of this level */
-long   g_gri, g_grd, g_gro, g_gii, g_gid, g_gio;     /* guard bytes */
+long   g_gri, g_grd, g_grc, g_gii, g_gid, g_gic;     /* guard cells: cell g_grc of RES is byte offset g_gri*g_rs + g_grd */
 
-char   ARGS[ASZ];
-char   FUNCS[ASZ];
-char   ATTRS[ASZ];
-char   RES[ASZ];
-char   IDS[ASZ];
 char   RETCELL[2];
 char   THR[3];                         /* thread tokens: THR[0] the thread under proof, THR[1] the child of this level, THR[2] deeper ones */
 
@@ -79,9 +77,16 @@ static inline void verif_aux_entered(void) { g_in_body = 1; }
 
 myth_thread_t myth_self(void) { return (myth_thread_t)g_self; }
 
+/* the five user arrays: dynamic objects of SYMBOLIC size (g_na, g_nt bytes; g_nf, g_nr, g_ni cells of 8 bytes), built by setup() */
+char          * ARGS;   long g_na;
+myth_func_t   * FUNCS;  long g_nf;
+char          * ATTRS;  long g_nt;
+void         ** RES;    long g_nr;
+myth_thread_t * IDS;    long g_ni;
+
 /* ------------------------------------------------------------------ the user's functions */
 #define IDENT (g_as >= 1 || g_fs >= 8)
-#define STRIDED (g_as != 0 || g_fs != 0 || (g_attrs != 0 && g_ts != 0) || g_res != 0 || g_ids != 0)   /* some array is really indexed: n <= ASZ */
+#define STRIDED (g_as != 0 || g_fs != 0 || (g_attrs != 0 && g_ts != 0) || g_res != 0 || g_ids != 0)   /* some array is really indexed: n < 2^31 */
 static void * F_watch(void * arg) {
   if (g_count < LONG_MAX) g_count++;
   if (!IDENT) return g_ret;
@@ -97,32 +102,12 @@ static void * F_other(void * arg) {
 
 /* ------------------------------------------------------------------ specification */
 #define MA(p)        ((myth_create_join_various_arg *)(p))
-#define SLOT8(base, off) (*(void **)((char *)(base) + (off)))
-#define RESSLOT      SLOT8(RES, g_wro)
-#define IDSLOT       SLOT8(IDS, g_wio)
+#define RESSLOT      RES[g_wrc]
+#define IDSLOT       IDS[g_wic]
 #define INR(a, b)    ((a) <= g_w && g_w < (b))
-#define STRIDE_OK(s, min)  ((s) >= (min) && (s) <= ASZ && SMALL(s))
-/* the universe is well formed: every item of [0, g_hb) has its slots inside the arrays; slots of results / ids / funcs
-   are aligned cells of 8 bytes that do not overlap (stride >= 8, multiple of 8) */
-#define FITS(s, w)   ((s) == 0 || (1 <= g_hb && g_hb <= ASZ && SMALL(g_hb) && SMALL(g_ha) && SMALL(s) && PROD(g_hb - 1, s) + (w) <= ASZ))
-#define CONFIG_OK \
-  (0 <= g_ha && g_ha <= g_hb && g_hb <= LONG_MAX / 2 && 0 <= g_w && \
-   (g_hb == 0 || ( \
-   g_as <= ASZ && FITS(g_as, 1) && \
-   (g_fs == 0 || STRIDE_OK(g_fs, 8)) && FITS(g_fs, 8) && \
-   (g_attrs == 0 || (g_ts <= ASZ && FITS(g_ts, 1))) && \
-   (g_res == 0 || (STRIDE_OK(g_rs, 8) && FITS(g_rs, 8))) && \
-   (g_ids == 0 || (STRIDE_OK(g_is, 8) && FITS(g_is, 8))))) && \
-   (g_attrs == 0 || g_attrs == (void *)ATTRS) && (g_res == 0 || g_res == (void *)RES) && (g_ids == 0 || g_ids == (void *)IDS) && \
-   g_warg == (g_w < g_hb ? (g_as == 0 ? (void *)ARGS : (void *)(ARGS + PROD(g_w, g_as))) : (void *)0) && \
-   g_wro == ((g_w < g_hb && g_res != 0) ? PROD(g_w, g_rs) : 0) && g_wio == ((g_w < g_hb && g_ids != 0) ? PROD(g_w, g_is) : 0) && \
-   0 <= g_gro && g_gro < ASZ && 0 <= g_gio && g_gio < ASZ && 0 <= g_gri && 0 <= g_grd && 0 <= g_gii && 0 <= g_gid && \
-   (g_res != 0 && g_hb != 0 ==> (g_grd < (long)g_rs && g_gri <= ASZ && SMALL(g_gri) && g_gro == PROD(g_gri, g_rs) + g_grd)) && \
-   (g_ids != 0 && g_hb != 0 ==> (g_gid < (long)g_is && g_gii <= ASZ && SMALL(g_gii) && g_gio == PROD(g_gii, g_is) + g_gid)) && \
-   g_ret != g_ret_o && g_self == (void *)&THR[0])
-/* instances of the lemma  x < y && s >= 0 ==> x*s + s <= y*s  (job c17.lemma.mono) for operands below 2*ASZ = 2^31 */
+/* instances of the lemma  x < y && s >= 0 ==> x*s + s <= y*s  (job c17.lemma.mono); operands bounded: no overflow */
 #define MONO1(x, y, s) ((x) < (y) ==> PROD(x, s) + (long)(s) <= PROD(y, s))
-#define MONO(x, y, s)  ((SMALL(x) && SMALL(y) && SMALL(s)) ==> (MONO1(x, y, s) && MONO1(y, x, s)))
+#define MONO(x, y, s)  ((SMALLN(x) && SMALLN(y) && SMALLS(s)) ==> (MONO1(x, y, s) && MONO1(y, x, s)))
 /* the argument block of a call of aux describes the universe and a non-empty sub-range */
 #define BLOCK_OK(m) \
   (MA(m)->ids == g_ids && MA(m)->attrs == g_attrs && MA(m)->args == (void *)ARGS && MA(m)->results == g_res && \
@@ -131,7 +116,7 @@ static void * F_other(void * arg) {
    (g_fs == 0 ? (__CPROVER_r_ok((myth_func_t *)MA(m)->funcs, sizeof(myth_func_t)) && *(myth_func_t *)MA(m)->funcs == F_watch) \
               : MA(m)->funcs == (void *)FUNCS) && \
    g_ha <= MA(m)->a && MA(m)->a < MA(m)->b && MA(m)->b <= g_hb && \
-   (STRIDED ==> (SMALL(MA(m)->a) && SMALL(MA(m)->b))))
+   (STRIDED ==> (SMALLN(MA(m)->a) && SMALLN(MA(m)->b))))
 #define GHOSTS_OK \
   (0 <= g_c0 && g_c0 <= LONG_MAX / 2 && g_c0 <= g_count && g_count <= g_c0 + (g_hb - g_ha) && g_bad == 0 && 0 <= g_calls && g_calls <= 1 && \
    g_p0 >= 0 && g_p0 <= LONG_MAX / 2 && g_p0 <= g_pending && g_pending <= g_p0 + 1)
@@ -144,9 +129,9 @@ static void * F_other(void * arg) {
   __CPROVER_ensures(g_calls == OLD(g_calls) + ((IDENT && INR(a, b)) ? 1 : 0))   /* 3 item g_w: exactly once iff in range */ \
   __CPROVER_ensures((IDENT && !INR(a, b)) ==> g_wid == OLD(g_wid))        /* 4 */ \
   __CPROVER_ensures(g_res != 0 && g_w < g_hb ==> RESSLOT == (INR(a, b) ? g_ret : OLD(RESSLOT)))      /* 5 result slot */ \
-  __CPROVER_ensures(g_ids != 0 && g_w < g_hb ==> (INR(a, b) ? (IDENT ? IDSLOT == g_wid : 1) && IDSLOT != 0 : IDSLOT == OLD(IDSLOT)))  /* 6 id slot */ \
-  __CPROVER_ensures((g_res == 0 || !((a) <= g_gri && g_gri < (b) && g_grd < 8)) ==> RES[g_gro] == OLD(RES[g_gro]))   /* 7 frame of results */ \
-  __CPROVER_ensures((g_ids == 0 || !((a) <= g_gii && g_gii < (b) && g_gid < 8)) ==> IDS[g_gio] == OLD(IDS[g_gio]))   /* 8 frame of ids */
+  __CPROVER_ensures(g_ids != 0 && g_w < g_hb ==> (INR(a, b) ? (IDENT ? (void *)IDSLOT == g_wid : 1) && IDSLOT != 0 : IDSLOT == OLD(IDSLOT)))  /* 6 id slot */ \
+  __CPROVER_ensures((g_res == 0 || !((a) <= g_gri && g_gri < (b) && g_grd == 0)) ==> RES[g_grc] == OLD(RES[g_grc]))   /* 7 frame of results */ \
+  __CPROVER_ensures((g_ids == 0 || !((a) <= g_gii && g_gii < (b) && g_gid == 0)) ==> IDS[g_gic] == OLD(IDS[g_gic]))   /* 8 frame of ids */
 
 #define RANGE_ENSURES(a, b) RANGE_ENSURES_NP(a, b) \
   __CPROVER_ensures(g_pending == OLD(g_pending))                          /* 9 every child joined */
@@ -226,37 +211,74 @@ void * (*keep_aux)(void *) = myth_create_join_various_ex_aux;
 /* ------------------------------------------------------------------ harness: the universe, built constructively */
 myth_create_join_various_arg H_ARG;
 
+static size_t pick_stride(_Bool zero_ok, _Bool cells) {
+  size_t st = nondet_ulong();
+  __CPROVER_assume(SMALLS(st) && (zero_ok || st != 0) && (!cells || st % 8 == 0));
+  return st;
+}
+/* bytes needed by an array whose items of w bytes lie st bytes apart, plus arbitrary slack */
+static long pick_size(size_t st, long w) {
+  long extra = nondet_long();
+  __CPROVER_assume(0 <= extra && extra <= SLACK);
+  return ((st == 0 || g_hb == 0) ? w : PROD(g_hb - 1, st) + w) + extra;
+}
 static void setup(void) {
-  g_is = nondet_ulong(); g_ts = nondet_ulong(); g_fs = nondet_ulong(); g_as = nondet_ulong(); g_rs = nondet_ulong();
-  g_ids = nondet_bool() ? (void *)IDS : 0;
-  g_attrs = nondet_bool() ? (void *)ATTRS : 0;
-  g_res = nondet_bool() ? (void *)RES : 0;
+  /* strides: args / attrs any; funcs 0 (one shared function) or aligned cells; results / ids aligned cells */
+  _Bool with_ids = nondet_bool(), with_attrs = nondet_bool(), with_res = nondet_bool();
+  g_as = pick_stride(1, 0); g_fs = pick_stride(1, 1);
+  g_ts = with_attrs ? pick_stride(1, 0) : nondet_ulong();      /* the stride of an array that is not given is arbitrary */
+  g_rs = with_res ? pick_stride(0, 1) : nondet_ulong();
+  g_is = with_ids ? pick_stride(0, 1) : nondet_ulong();
+  /* range of the call under proof and witness */
   g_ha = nondet_long(); g_hb = nondet_long(); g_w = nondet_long();
+  __CPROVER_assume(0 <= g_w && 0 <= g_ha && g_ha <= g_hb && g_hb <= LONG_MAX / 2);
+  if (g_as != 0 || g_fs != 0 || (with_attrs && g_ts != 0) || with_res || with_ids) __CPROVER_assume(SMALLN(g_hb) && SMALLN(g_ha));
+  /* user memory: five dynamic objects of symbolic size (malloc(n * sizeof(T)) gives an array of n cells of type T) */
+  g_na = pick_size(g_as, 1); g_nt = pick_size(with_attrs ? g_ts : 0, 1);
+  g_nf = pick_size(g_fs, 8) / 8 + 1; g_nr = pick_size(with_res ? g_rs : 0, 8) / 8 + 1; g_ni = pick_size(with_ids ? g_is : 0, 8) / 8 + 1;
+  ARGS = malloc((size_t)g_na); ATTRS = malloc((size_t)g_nt);
+  FUNCS = malloc((size_t)g_nf * sizeof(myth_func_t)); RES = malloc((size_t)g_nr * sizeof(void *)); IDS = malloc((size_t)g_ni * sizeof(myth_thread_t));
+  __CPROVER_assume(ARGS != 0 && ATTRS != 0 && FUNCS != 0 && RES != 0 && IDS != 0);
+  g_ids = with_ids ? (void *)IDS : 0; g_attrs = with_attrs ? (void *)ATTRS : 0; g_res = with_res ? (void *)RES : 0;
+  /* witness item: its argument address and its cells */
+  _Bool w_in = g_w < g_hb;
+  g_warg = w_in ? (void *)(ARGS + PROD(g_w, g_as)) : 0;
+  g_wrc = (w_in && with_res) ? PROD(g_w, g_rs) / 8 : 0;
+  g_wic = (w_in && with_ids) ? PROD(g_w, g_is) / 8 : 0;
+  /* lemma instances: the witness lies below the last item */
+  if (w_in) __CPROVER_assume(MONO(g_w, g_hb - 1, g_as) && MONO(g_w, g_hb - 1, g_rs) && MONO(g_w, g_hb - 1, g_is));
+  /* guard cells: any cell of RES / IDS, written as (item number, offset within the stride) */
+  g_gri = g_grd = g_gii = g_gid = 0; g_grc = nondet_long(); g_gic = nondet_long();
+  if (with_res) {
+    g_gri = nondet_long(); g_grd = nondet_long();
+    __CPROVER_assume(SMALLN(g_gri) && 0 <= g_grd && g_grd < (long)g_rs && g_grd % 8 == 0);
+    g_grc = (PROD(g_gri, g_rs) + g_grd) / 8;
+  }
+  if (with_ids) {
+    g_gii = nondet_long(); g_gid = nondet_long();
+    __CPROVER_assume(SMALLN(g_gii) && 0 <= g_gid && g_gid < (long)g_is && g_gid % 8 == 0);
+    g_gic = (PROD(g_gii, g_is) + g_gid) / 8;
+  }
+  __CPROVER_assume(0 <= g_grc && g_grc < g_nr && 0 <= g_gic && g_gic < g_ni);
+  /* what the user's functions return, who we are, counters */
   g_ret = nondet_bool() ? (void *)&RETCELL[0] : 0;
   g_ret_o = g_ret ? (nondet_bool() ? (void *)&RETCELL[1] : 0) : (void *)&RETCELL[1];
   g_self = (void *)&THR[0];
   g_wid = 0; g_calls = 0; g_bad = 0; g_in_body = 0; g_ca = 0; g_cb = 0;
   g_p0 = nondet_long(); __CPROVER_assume(0 <= g_p0 && g_p0 <= LONG_MAX / 2); g_pending = g_p0;
-  g_gri = nondet_long(); g_grd = nondet_long(); g_gro = nondet_long();
-  g_gii = nondet_long(); g_gid = nondet_long(); g_gio = nondet_long();
-  g_warg = 0; g_wro = nondet_long(); g_wio = nondet_long();
   g_c0 = nondet_long(); __CPROVER_assume(0 <= g_c0 && g_c0 <= LONG_MAX / 2); g_count = g_c0;
-  __CPROVER_assume(0 <= g_w && 0 <= g_ha && g_ha <= g_hb && g_hb <= LONG_MAX / 2);
-  __CPROVER_assume(g_hb == 0 || (g_as <= ASZ && FITS(g_as, 1)));
-  if (g_w < g_hb) g_warg = (g_as == 0) ? (void *)ARGS : (void *)(ARGS + PROD(g_w, g_as));
-  __CPROVER_assume(CONFIG_OK);
-  /* ARGS / FUNCS / ATTRS / RES / IDS: arbitrary content (static objects start nondet under --dfcc) */
+  /* ARGS / FUNCS / ATTRS / RES / IDS: arbitrary content (fresh dynamic objects are nondet) */
 }
 
-#define FUNCSLOT(i) (*(myth_func_t *)(FUNCS + PROD(i, g_fs)))
+#define FUNCSLOT(i) (FUNCS[PROD(i, g_fs) / 8])
 void h_aux(void) {
   setup();
   __CPROVER_assume(g_ha < g_hb);
   /* f_i is what the table holds (definition); instance for the one slot this call can read itself */
   __CPROVER_assume(FUNCSLOT(g_ha) == ((g_fs == 0 || g_ha == g_w) ? F_watch : F_other));
   /* lemma instances (distinct items have disjoint slots; the last item bounds every item) */
-  __CPROVER_assume(MONO(g_ha, g_hb - 1, g_as) && MONO(g_ha, g_hb - 1, g_fs) && MONO(g_ha, g_hb - 1, g_rs) && MONO(g_ha, g_hb - 1, g_is));
-  __CPROVER_assume(g_w < g_hb ==> (MONO(g_ha, g_w, g_as) && MONO(g_ha, g_w, g_fs) && MONO(g_ha, g_w, g_rs) && MONO(g_ha, g_w, g_is)));
+  __CPROVER_assume(MONO(g_ha, g_hb - 1, g_fs) && MONO(g_ha, g_hb - 1, g_rs) && MONO(g_ha, g_hb - 1, g_is));
+  __CPROVER_assume(g_w < g_hb ==> (MONO(g_ha, g_w, g_as) && MONO(g_ha, g_w, g_rs) && MONO(g_ha, g_w, g_is)));
   __CPROVER_assume(MONO(g_ha, g_gri, g_rs) && MONO(g_ha, g_gii, g_is));
   H_ARG.ids = g_ids; H_ARG.attrs = g_attrs; H_ARG.funcs = (void *)FUNCS; H_ARG.args = (void *)ARGS; H_ARG.results = g_res;
   H_ARG.id_stride = g_is; H_ARG.attr_stride = g_ts; H_ARG.func_stride = g_fs; H_ARG.arg_stride = g_as; H_ARG.result_stride = g_rs;
